@@ -243,18 +243,24 @@ def history_items(tier):
     for w in HISTORY_WALLETS:
         big = max(range(len(w)), key=lambda i: (amount_of(w[i][0], 50), -i))
         tails = {
-            'none': [], 'confirm': [['confirm']], 'reorg': [['reorg']], 'reserve': [['reserve', big]],
+            'none': [], 'confirm': [['confirm']], 'reorg': [['reorg']], 'resync': [['resync']], 'reserve': [['reserve', big]],
             'spend': [['spend', big]], 'arrive-conf': [['arrive', 3 * COIN, 'conf']],
             'arrive-mem0': [['arrive', 3 * COIN, 'mem0']], 'fpb-up': [['fpb', 1000]], 'fpb-down': [['fpb', 1]],
         }
         for name, tail in tails.items():
-            firsts = [b_release, b_hold, b_save, b_refused] if (name in ('none', 'confirm') or not quick) else [b_release, b_save]
+            if name in ('none', 'confirm') or not quick:
+                firsts = [b_release, b_hold, b_save, b_refused]
+            elif name in ('reorg', 'resync'):       # sync rewrites the table while build #1 holds its coins
+                firsts = [b_release, b_hold, b_save]
+            else:
+                firsts = [b_release, b_save]
             for first in firsts:
                 items.append({'syms': w, 'history': [first] + tail})
         # reserved while the wallet is enumerated, released afterwards; coin arrives unconfirmed, is enumerated, confirms
         items.append({'syms': w, 'history': [['reserve', big], b_release, ['release', big]]})
         items.append({'syms': w, 'history': [b_release, ['arrive', 3 * COIN, 'mem0'], b_release, ['confirm']]})
         items.append({'syms': w, 'history': [b_release, ['confirm'], b_release, ['reorg']]})
+        items.append({'syms': w, 'history': [['reserve', big], ['resync'], b_hold, ['confirm'], ['resync']]})
     return items
 
 
@@ -588,6 +594,7 @@ async def apply_history(h, case, log):
         return list(out.values())
 
     serial = 0
+    held = set(h.reserved())      # what must be reserved: inputs of builds that were not abandoned + explicit reservations
     for step in case['history']:
         op = step[0]
         serial += 1
@@ -603,6 +610,8 @@ async def apply_history(h, case, log):
             ledger.coin_selection_strategy = final_strategy
             if tx is not None:
                 log.append(f'build: {len(tx.inputs)} input(s), then {then}')
+                if then != 'release':
+                    held |= {txi.txo_ref.id for txi in tx.inputs}
                 if then == 'release':
                     await ledger.release_tx(tx)
                 elif then == 'save':
@@ -611,20 +620,30 @@ async def apply_history(h, case, log):
                     mine = [txi.txo_ref.txo for txi in tx.inputs] + \
                         [o for o in tx.outputs[1:] if o.script.is_pay_pubkey_hash]
                     await resave(tx, mine)
-        elif op == 'confirm':
-            for ftx, txos in funding_of(lambda t: t.height <= 0):
-                ftx.height, ftx.is_verified = 7, True
-                await resave(ftx, txos)
-            log.append('confirm')
-        elif op == 'reorg':
-            for ftx, txos in funding_of(lambda t: t.height > 0):
-                ftx.height, ftx.is_verified = 0, False
-                await resave(ftx, txos)
-            log.append('reorg')
+        elif op in ('confirm', 'reorg', 'resync'):
+            # what wallet sync does when it meets a transaction again: the raw transaction is parsed anew and written
+            # with save_transaction_io_batch for every own address it touches (same height / 0 -> n / n -> 0)
+            pred = {'confirm': lambda t: t.height <= 0, 'reorg': lambda t: t.height > 0, 'resync': lambda t: True}[op]
+            for ftx, txos in funding_of(pred):
+                if op == 'confirm':
+                    ftx.height, ftx.is_verified = 7, True
+                elif op == 'reorg':
+                    ftx.height, ftx.is_verified = 0, False
+                seen = set()
+                for txo in txos:
+                    address = txo.get_address(ledger)
+                    if address in seen:
+                        continue
+                    seen.add(address)
+                    again = Transaction(ftx.raw, height=ftx.height, is_verified=ftx.is_verified)
+                    await db.save_transaction_io_batch([again], address, h160(address), f'{ftx.id}:{ftx.height}:')
+            log.append(op)
         elif op == 'reserve':
             await ledger.reserve_outputs([coins[step[1]].txo])
+            held.add(coins[step[1]].txo.id)
         elif op == 'release':
             await ledger.release_outputs([coins[step[1]].txo])
+            held.discard(coins[step[1]].txo.id)
         elif op == 'spend':
             txo = coins[step[1]].txo
             spender = Transaction(is_verified=True, height=8).add_inputs([Input.spend(txo)]).add_outputs(
@@ -645,15 +664,26 @@ async def apply_history(h, case, log):
             ledger.fee_per_byte = step[1]
         else:
             raise ValueError(step)
+    return held
 
 
-def resolve_deficit(h, case):
+def logical_rows(h, held):
+    """The txo table with is_reserved forced to 1 for outputs that are held by an earlier, not abandoned build of
+    the history (or were reserved explicitly): they are not available whatever a later writer did to the flag."""
+    rows = h.rows()
+    lost = [k for k in held if k in rows and not rows[k]['is_reserved']]
+    for k in lost:
+        rows[k] = dict(rows[k], is_reserved=1)
+    return rows, lost
+
+
+def resolve_deficit(h, case, rows=None):
     """deficit_spec = [reference, [fee bytes, dewies]] -> number, from the CURRENT txo table."""
     ref, (nbytes, extra) = case['deficit_spec']
     fpb = h.ledger.fee_per_byte
     acc = h.account.public_key.address
     types = (0,) if case['strategy'] == 'sqlite' else (0, 4)
-    eff = [(r['amount'] - IN_BYTES * fpb, r['height']) for r in h.rows().values()
+    eff = [(r['amount'] - IN_BYTES * fpb, r['height']) for r in (rows or h.rows()).values()
            if not r['spent'] and not r['is_reserved'] and r['account'] == acc and r['txo_type'] in types]
     pos = [e for e, _ in eff if e > 0]
     cpos = [e for e, hgt in eff if e > 0 and hgt > 0]
@@ -682,7 +712,7 @@ def execute(case, session=None):
         if case.get('history'):
             obs['history_log'] = []
             try:
-                h.run(apply_history(h, case, obs['history_log']))
+                held = h.run(apply_history(h, case, obs['history_log']))
             except Exception as e:   # noqa - a step of the history failed inside lbry: judged like any other failure
                 obs.update(outcome='exception', exc_type=type(e).__name__, exc_site=lbry_site(e.__traceback__),
                            exc_text=repr(e)[:200], expected=[], pre_ids=[], before=h.rows(), after=h.rows(),
@@ -690,13 +720,14 @@ def execute(case, session=None):
                            shuffles=[], choices=[], loop_exceptions=[], in_history=True)
                 return obs
             case['fpb'] = h.ledger.fee_per_byte
-            case['deficit'] = resolve_deficit(h, case)
+            hist_rows, obs['reservations_lost_in_history'] = logical_rows(h, held)
+            case['deficit'] = resolve_deficit(h, case, hist_rows)
             del h.selected[:]
             h.script.shuffles, h.script.choices = [], []
             if case['deficit'] is None:
                 obs['skipped'] = True
                 return obs
-        before = h.rows()
+        before = logical_rows(h, held)[0] if case.get('history') else h.rows()
         naddr = h.address_count()
         coro, expected, pre_ids = build_request(h, case)
         if coro is None:
@@ -777,6 +808,8 @@ def judge(case, obs, res):
             break
     if obs['loop_exceptions']:
         viol({'kind': 'loop-exception', 'strategy': strat}, f"event loop reported {obs['loop_exceptions'][0]}")
+    if obs.get('reservations_lost_in_history'):
+        res.tally('observed:a_history_step_cleared_is_reserved_of_a_held_output')
 
     if obs['outcome'] == 'exception':
         viol({'kind': 'unexpected-exception', 'type': obs['exc_type'], 'site': obs['exc_site']},
